@@ -65,13 +65,13 @@ class Adapter(EnvAdapter):
         cs = [
             # small container, exact arithmetic everywhere, integer observation, obs_num_ems = max_num_ems
             dict(id="r654", gen="random", dims=(6, 5, 4), items=8, ems=24, obs=24, split=3, norm=False, reward="dense",
-                 episodes=12 if q else 120, max_steps=12, probe_cap=40, policies=pol),
+                 episodes=12 if q else 80, max_steps=12, probe_cap=40, policies=pol),
             # registered default: 20-ft container, 20 items, 40 EMSs, normalised observation
             dict(id="default", gen="random", dims=None, items=20, ems=40, obs=40, split=2, norm=True, reward="dense",
                  episodes=4 if q else 20, max_steps=24, probe_cap=16 if q else 24, policies=pol),
             # small EMS buffer (overflow drops spaces), obs_num_ems < max_num_ems, sparse reward
             dict(id="ovf", gen="random", dims=(12, 10, 8), items=12, ems=6, obs=4, split=3, norm=True, reward="sparse",
-                 episodes=10 if q else 100, max_steps=16, probe_cap=32, policies=pol),
+                 episodes=10 if q else 60, max_steps=16, probe_cap=32, policies=pol),
             dict(id="toy", gen="toy", dims=None, items=20, ems=60, obs=30, split=0, norm=False, reward="sparse",
                  episodes=3 if q else 12, max_steps=24, probe_cap=10 if q else 24,
                  policies=["solution", "masked", "mostly_masked"]),
@@ -85,7 +85,7 @@ class Adapter(EnvAdapter):
                 dict(id="r30", gen="random", dims=None, items=30, ems=60, obs=60, split=4, norm=True, reward="dense",
                      episodes=8, max_steps=34, probe_cap=20, policies=pol),
                 dict(id="r12108", gen="random", dims=(12, 10, 8), items=10, ems=12, obs=12, split=2, norm=False,
-                     reward="dense", episodes=80, max_steps=14, probe_cap=40, policies=pol),
+                     reward="dense", episodes=50, max_steps=14, probe_cap=40, policies=pol),
                 dict(id="r322", gen="random", dims=(3, 2, 2), items=5, ems=8, obs=8, split=2, norm=True, reward="sparse",
                      episodes=80, max_steps=8, probe_cap=40, policies=pol),
             ]
